@@ -120,7 +120,7 @@ func errStr(err error) string {
 		return "ok"
 	}
 	o := outcomeOf(err)
-	return fmt.Sprintf("%s/%d/%d/%s", o.Kind, o.Code, o.Pos, o.Msg)
+	return fmt.Sprintf("%s/%d/%d/%s/%s/%s", o.Kind, o.Code, o.Pos, o.Msg, o.File, o.IUT)
 }
 
 // doLife performs one operation and returns a canonical result string plus a handle to re-read later (may be nil).
